@@ -1,15 +1,17 @@
 use duckscript::parser;
 use duckscript::types::error::ScriptError;
 use duckscript::types::instruction::{Instruction, InstructionType, ScriptInstruction};
+use std::io::{stdout, Write};
 
 pub(crate) fn lint_file(file: &str) -> Result<(), ScriptError> {
     match parser::parse_file(file) {
         Ok(instructions) => {
-            println!("File: {} parsed correctly.", file);
+            // (println panics when the output can not be written)
+            writeln!(stdout(), "File: {} parsed correctly.", file).unwrap_or(());
 
             match lint_instructions(instructions) {
                 Ok(_) => {
-                    println!("No lint errors found in file: {}", file);
+                    writeln!(stdout(), "No lint errors found in file: {}", file).unwrap_or(());
                     Ok(())
                 }
                 Err(error) => Err(error),
